@@ -1,5 +1,8 @@
 //! Shared plumbing for the per-property harness binaries (src/bin/cXX.rs).
 //! One PRNG, Gallina term emitters, canonical result printers identical to coq/Base/Show.v.
+pub mod appkit;
+pub mod searchkit;
+
 use std::fmt::Write as _;
 use std::fs;
 use std::io::Write as _;
